@@ -56,7 +56,21 @@ def BOUNDED(tier, seed):
             skipped.append(C.__name__)
             continue
         loss2 = validate_loss_function(m)            # a second holder of the same metric object
-        dict_metric = loss._dict_input_metric
+        # independent classification: a single-value metric is one whose update accepts a single value as y_pred
+        try:
+            probe = C()
+            probe.update(y_true=0, y_pred=0)
+            dict_metric = False
+        except AttributeError:
+            dict_metric = True
+        except Exception:   # noqa
+            dict_metric = bool(loss._dict_input_metric)
+        if bool(loss._dict_input_metric) != dict_metric:
+            evals += 1
+            fails.append({'key': 'metric_' + C.__name__, 'summary': f'{C.__name__} accepts a single value as y_pred = {not dict_metric}, but the '
+                          f'wrapper passes it {"the whole prediction dict" if loss._dict_input_metric else "only the output entry"}',
+                          'observed': {'dict_input_metric': bool(loss._dict_input_metric)}})
+            continue
         base = repr(m.get())
         steps = 12 if tier == 'quick' else 200
         ok = True
